@@ -16,6 +16,8 @@ use std::time::{Duration, Instant};
 use vh::vcore::*;
 use vh::vnode::Scratch;
 
+mod part_b;
+
 #[derive(Clone, Copy, Debug, PartialEq, Eq, PartialOrd, Ord, Hash, serde::Serialize, serde::Deserialize)]
 enum Prio {
     Low = 0,
@@ -295,6 +297,18 @@ fn main() {
     }
     if let Some(p) = &cli.replay {
         let r = load_replay(p);
+        if r["part"] == "B" {
+            part_b::install_handler();
+            let w = part_b::build_world();
+            let paths: Vec<part_b::Path> = serde_json::from_value(r["paths"].clone()).unwrap();
+            let prefix: Vec<usize> = serde_json::from_value(r["prefix"].clone()).unwrap();
+            let out = part_b::run_schedule(&w, &paths, &prefix);
+            println!("schedule: {:?}", out.acts);
+            for (k, d) in &out.violations {
+                println!("reproduced {k}: {d}");
+            }
+            std::process::exit(if out.violations.is_empty() { 0 } else { 1 });
+        }
         let prog: Program = serde_json::from_value(r["program"].clone()).unwrap();
         let prefix: Vec<usize> = serde_json::from_value(r["prefix"].clone()).unwrap();
         let out = run_schedule(&db, &prog, &prefix);
@@ -321,7 +335,7 @@ fn main() {
             Program { prios: vec![Low, Normal, Priority, Normal], max_cancels: 0, max_defer: 1 },
         ],
     };
-    let deadline = Instant::now() + Duration::from_secs(cli.tier.pick(50, 1500));
+    let deadline = Instant::now() + Duration::from_secs(cli.tier.pick(20, 600));
     let mut per_prog = vec![];
     let mut total = (0u64, 0u64, false);
     for prog in &programs {
@@ -332,17 +346,24 @@ fn main() {
         total.1 += c.1;
         total.2 |= c.2;
     }
-    rep.set("states", total.0);
-    rep.set("transitions", total.1);
-    rep.set("evaluations", total.0);
-    rep.set("traces_validated_against_impl", total.0);
+    let b = part_b::part_b(&rep, cli.tier, Instant::now() + Duration::from_secs(cli.tier.pick(35, 1200)));
+    let bs = b["schedules"].as_u64().unwrap_or(0);
+    let bcap = b["cap"].as_str().map(|s| s.to_string());
+    rep.set("states", total.0 + bs);
+    rep.set("transitions", total.1 + b["actions"].as_u64().unwrap_or(0));
+    rep.set("evaluations", total.0 + bs);
+    rep.set("traces_validated_against_impl", total.0 + bs);
     rep.set("programs", json!(per_prog));
-    rep.set("exhaustive", !total.2);
+    rep.set("part_b", b);
+    rep.set("exhaustive", !total.2 && bcap.is_none());
     if total.2 {
         rep.set("cap_hit", "wall-clock cap: the last program's schedule tree was not finished");
+    } else if let Some(c) = bcap {
+        rep.set("cap_hit", format!("part B: {c}"));
     }
     rep.assume("scheduling points are the harness's actions (poll a woken requester, cancel, release); after each action the dispatcher task is run to quiescence, so interleavings inside tokio's channel/semaphore primitives are not explored");
-    rep.assume("part B of C20 (agent-wide lock order: write connection x write permit x bookkeeping locks) is not covered by this engine");
+    rep.assume("part B: nine agent activities (client transaction, remote apply of one and of two actors, buffering a chunk, applying a buffered version, empty version, generate_sync, serving a sync request, schema change) run as real tasks on a real node and are stopped at every bookkeeping-lock acquisition and every write-connection request; a released task runs to its next acquisition, its end, or until it waits for a held resource; deadlock = every unfinished task waits");
+    rep.assume("part B: the admin-socket paths (reconcile-gaps, set-cluster-id) live in the binary crate and are not driven; interleavings finer than acquisition points are not explored");
     rep.require_nontrivial(20, "a schedule is non-trivial when at least two requests were granted in it or a request was cancelled; distinct by (program, action sequence)");
     rep.finish();
 }
